@@ -661,6 +661,8 @@ class Emitter:
                 if ct.is_ref:
                     self.ref_vars[c['id']] = True
         out = Buf()
+        for g in self.ghost.get((fi['cname'], 'entry'), []):
+            out.add(g)
         if fi['kind'] == 'CXXConstructorDecl':
             self.emit_ctor_inits(fi, out)
         body = [c for c in inner(n) if c['kind'] in ('CompoundStmt', 'CXXTryStmt')][0]
